@@ -16,6 +16,7 @@ import (
 	"os"
 	"path/filepath"
 	"sort"
+	"strings"
 	"sync"
 	"sync/atomic"
 	"testing"
@@ -338,6 +339,101 @@ func TestVerifC18mutex(t *testing.T) {
 			mc.Explore(r, mc.Options{Job: "failed-acquisition", MaxDev: -1, SubShard: e.Shard, SubN: e.NShards, SubDepth: 2, Env: e}, failedRun)
 		},
 		Replay: func(ch []int) (*mc.Failure, []string) { return mc.ReplayOne(failedRun, ch) }})
+	// goroutines of ONE member, hold time longer than the member's request timeout: A holds for 1.5 s (timeout 1 s) while B and
+	// then C call Lock (on A's handle or on another handle of that member). Whatever B's wait does when the timeout passes
+	// (the current code waits on; failing would be allowed too), neither B nor C may return nil before A unlocks, and
+	// afterwards the waiters get the mutex one at a time.
+	longHoldRun := func(c *mc.Ctx) {
+		lock := fmt.Sprintf("/verif/c18/longhold-%d-%d", os.Getpid(), atomic.AddInt64(&c18Seq, 1))
+		hA, err := impatient.Mutex(lock)
+		if err != nil {
+			c.Failf("harness:mutex-handle", "%v", err)
+		}
+		hOther, _ := impatient.Mutex(lock)
+		pickH := func(tag string) Mutex {
+			if c.Choose(2, tag) == 1 {
+				return hOther
+			}
+			return hA
+		}
+		hB, hC := pickH("B-uses-another-handle"), pickH("C-uses-another-handle")
+		if !c.Mine() {
+			return
+		}
+		if err := hA.Lock(); err != nil {
+			c.Failf("mutex:lock-returned-error:long-hold", "A: %v", err)
+		}
+		var holding int32 = 1
+		type ret struct {
+			who string
+			err error
+		}
+		rets := make(chan ret, 2)
+		call := func(who string, h Mutex) {
+			go func() {
+				err := h.Lock()
+				if err == nil {
+					if n := atomic.AddInt32(&holding, 1); n > 1 {
+						rets <- ret{who + "!two-holders", nil}
+						return
+					}
+				}
+				rets <- ret{who, err}
+			}()
+		}
+		pending := 0
+		settle := func(d time.Duration, while string) {
+			deadline := time.After(d)
+			for {
+				select {
+				case r := <-rets:
+					pending--
+					if r.err == nil {
+						c.Failf("mutex:two-holders:long-hold-one-member", "%s: Lock of goroutine %s returned nil while goroutine A of the same member holds the mutex (A holds longer than the 1 s request timeout)", while, r.who)
+					}
+				case <-deadline:
+					return
+				}
+			}
+		}
+		call("B", hB)
+		pending++
+		settle(1500*time.Millisecond, "B waits past the request timeout")
+		call("C", hC)
+		pending++
+		settle(500*time.Millisecond, "C called after B's wait passed the timeout")
+		atomic.AddInt32(&holding, -1)
+		if err := hA.Unlock(); err != nil {
+			c.Failf("mutex:unlock-error:long-hold", "%v", err)
+		}
+		for pending > 0 {
+			select {
+			case r := <-rets:
+				pending--
+				if strings.HasSuffix(r.who, "!two-holders") {
+					c.Failf("mutex:two-holders:long-hold-one-member", "after A's Unlock the waiters B and C held the mutex at the same time")
+				}
+				if r.err == nil {
+					atomic.AddInt32(&holding, -1)
+					h := hB
+					if r.who == "C" {
+						h = hC
+					}
+					if err := h.Unlock(); err != nil {
+						c.Failf("mutex:unlock-error:long-hold", "%s: %v", r.who, err)
+					}
+				}
+			case <-time.After(20 * time.Second):
+				c.Failf("mutex:waiter-never-served:long-hold-one-member", "a goroutine that called Lock while A held the mutex neither acquired it nor failed within 20 s of A's Unlock")
+			}
+		}
+		c.Outcome(fmt.Sprintf("long-hold B-other=%v C-other=%v", hB == hOther, hC == hOther))
+	}
+	jobs = append(jobs, mc.Job{Name: "long-hold-one-member",
+		Run: func(r *mc.Result, e *mc.Env) {
+			mc.Explore(r, mc.Options{Job: "long-hold-one-member", MaxDev: -1, SubShard: e.Shard, SubN: e.NShards, SubDepth: 2, Env: e}, longHoldRun)
+		},
+		Replay: func(ch []int) (*mc.Failure, []string) { return mc.ReplayOne(longHoldRun, ch) }})
 	// probe for the double grant of the two-handles-one-member configuration (TLC: invariant violated in config B1)
 	jobs = append(jobs, mc.Job{Name: "probe/two-handles-one-member",
 		Run: func(r *mc.Result, e *mc.Env) {
